@@ -24,4 +24,5 @@ Lemma result_alias_repaired : repaired w_result_alias. Proof. positive. Qed.
 Lemma event_nested_repaired : repaired w_event_nested. Proof. positive. Qed.
 Lemma field_result_refuted : kf_c07_field_result w_field_result = true /\ refutes w_field_result. Proof. witness. Qed.
 Lemma inline_mod_refuted : kf_c07_inline_mod w_inline_mod = true /\ refutes w_inline_mod. Proof. witness. Qed.
+Lemma payload_expr_refuted : kf_c07_payload_expr w_payload_expr = true /\ refutes w_payload_expr. Proof. witness. Qed.
 Lemma odd_name_refuted : kf_c07_odd_name w_odd_name = true /\ refutes w_odd_name. Proof. witness. Qed.
